@@ -202,6 +202,12 @@ theorem word_last (b0 b1 b2 b3 b4 b5 b6 b7 : BitVec 8) (pos ls : Nat) :
                   simp only [hz, ne_eq, not_true_eq_false, if_false]
                   simp [lastLS, h0, h1, h2, h3, h4, h5, h6, h7]
 
+/-- The generated per-word line increment (`mask.count_ones() as usize`) is the popcount. -/
+theorem line_inc_toNat (m : BitVec 64) : (Gen.utf8_line_inc m).toNat = popc m := by
+  have e : Gen.utf8_line_inc m = m.cpop := by
+    simp only [Gen.utf8_line_inc, popcountBV64]; bv_decide (timeout := 300)
+  rw [e]; rfl
+
 /-- The word loop of `line_and_column` computes what its byte loop computes. -/
 theorem lineColGo_eq_tail (l : List Byte) (pos line ls : Nat) :
     lineColGo l pos line ls = lineColTail l pos line ls := by
